@@ -75,7 +75,10 @@ void varintExternalPutFixedWidthBig(void *p, __uint128_t v,
                                     varintWidth encoding);
 uint64_t varintExternalGet(const void *p, varintWidth encoding);
 __uint128_t varintBigExternalGet(const void *p, varintWidth encoding);
-#define varintExternalLen(v) varintExternalSignedEncoding((uint64_t)(v))
+/* Width of an unsigned value.  All 64 bits are data here, so this must not go
+ * through the signed entry point, which rejects everything >= 2^63. */
+#define varintExternalLen(v) varintExternalUnsignedLen((uint64_t)(v))
+varintWidth varintExternalUnsignedLen(uint64_t value);
 varintWidth varintExternalSignedEncoding(int64_t value);
 varintWidth varintExternalAddNoGrow(uint8_t *p, varintWidth encoding,
                                     int64_t add);
